@@ -116,7 +116,14 @@ def evaluate(mod, cases, res: Result, with_model=True):
             # neither the model nor any property is about -- the case is counted and left out
             res.stats["skipped:beyond_dtype_range"] += 1
             continue
-        fails = oracle_of(mod, c, io)
+        try:
+            fails = oracle_of(mod, c, io)
+        except Exception:
+            # what the implementation returned has a shape the oracle cannot read: on the unchanged tree this does not happen (the
+            # clean sweeps), so it is reported as a broken correspondence on this case rather than as a crash of the check
+            found.append((c, "disagree", ["the implementation's output could not be interpreted by the property oracle: "
+                                          + traceback.format_exc()[-600:]], io, mo))
+            continue
         if fails:
             found.append((c, "oracle", fails, io, mo))
             continue
@@ -125,10 +132,22 @@ def evaluate(mod, cases, res: Result, with_model=True):
             if "error" in mo:
                 found.append((c, "disagree", ["model error: " + str(mo["error"])], io, mo))
                 continue
-            d = mod.diff(c, mo["ok"], io)
+            try:
+                d = mod.diff(c, mo["ok"], io)
+            except Exception:
+                d = ["the implementation's output could not be compared with the model's: " + traceback.format_exc()[-600:]]
             if d:
                 found.append((c, "disagree", d[:12], io, mo))
     return found
+
+
+def _safe_diff(mod, c, mo, io):
+    if "ok" not in mo:
+        return [str(mo)]
+    try:
+        return mod.diff(c, mo["ok"], io)
+    except Exception:
+        return ["the implementation's output could not be compared with the model's: " + traceback.format_exc()[-600:]]
 
 
 def oracle_of(mod, c, io):
@@ -264,7 +283,12 @@ def run_property(mod, tier: str, seed: int, replay: str | None = None) -> int:
         io = mod.run_impl(c)
         mc = mod.model_case(c, io)
         mo = core.run_model([mc])[0]
-        return "error" in mo or bool(mod.diff(c, mo["ok"], io))
+        if "error" in mo:
+            return True
+        try:
+            return bool(mod.diff(c, mo["ok"], io))
+        except Exception:
+            return True
 
     for c, kind, fails, io, mo in oracle_found:
         sig = fails[0].split(":")[0]
@@ -324,7 +348,7 @@ def run_property(mod, tier: str, seed: int, replay: str | None = None) -> int:
                 "property": prop, "seed": seed,
                 "kind": "correspondence between the Lean model and the implementation no longer checks; no failing input for the property found",
                 "no_longer_checks": f"correspondence of {prop} (model Physt.Model vs physt) on the case below",
-                "differences": (mod.diff(small, mo2["ok"], io2) if "ok" in mo2 else [str(mo2)])[:12],
+                "differences": (_safe_diff(mod, small, mo2, io2))[:12],
                 "case": small, "impl": io2, "model": mo2})
             violations.append({"kind": "disagree", "replay": str(path), "detail": d[:3]})
 
